@@ -7,7 +7,7 @@ From Coq Require Import String.
 From Coq Require Import List NArith Bool.
 From Coq.Strings Require Import Byte.
 From Model Require Import Bytes Frame Response Conn Compression.
-From Proofs Require Import ApiFacts CompressionFacts NegotiationFacts NegotiationTie DeliveryFacts DeliveryZ.
+From Proofs Require Import ApiFacts CompressionFacts NegotiationFacts NegotiationTie DeliveryFacts DeliveryZ StreamViolation StreamViolationZ.
 Import ListNotations.
 
 (* for every message history with per-message compress flags, both no_context_takeover settings, and every way of
@@ -162,3 +162,21 @@ Theorem C06_accepted_extension_starts_a_compressed_connection : forall cf app, P
              Proofs.DeliveryFacts.msg_events (k_tr c') = Proofs.DeliveryFacts.msg_events (k_tr c) /\ k_sock c' = k_sock c.
 Proof. exact Proofs.DeliveryZ.handshake_idle_z. Qed.
 Print Assumptions C06_accepted_extension_starts_a_compressed_connection.
+
+(* a compressed message the inflater refuses (zlib error), after any conforming prefix: one critical ProtocolError, nothing
+   of it delivered, the feed fails (stated with the ill-formed-text case in C05_ill_formed_inflated_text_after_conforming_prefix) *)
+Theorem C06_inflate_failure_is_a_critical_error : forall cf app, Proofs.DeliveryFacts.benign app -> zpos (c_ping_timeout cf) = None ->
+  forall d fs lfs c tape ms zs f lf rest,
+  Proofs.DeliveryZ.idle_z d c [] tape -> Forall Proofs.DeliveryZ.zframe fs -> Proofs.DeliveryFacts.forms_ok fs lfs ->
+  Proofs.DeliveryZ.ref_messages_z [] tape fs = Some (ms, [], None :: zs) ->
+  Proofs.DeliveryZ.zframe f -> f_rsv1 f = true -> f_fin f = true -> form_ok lf (blen (f_payload f)) = true ->
+  (f_op f = Frame.OP_TEXT \/ f_op f = Frame.OP_BINARY) ->
+  let r := feedf cf app c (Proofs.DeliveryFacts.encode_all fs lfs ++ enc_frame f lf ++ rest) in
+  snd r <> SOk /\
+  Proofs.DeliveryFacts.msg_events (k_tr (fst r)) = rev (map Proofs.DeliveryFacts.ev_of ms) ++ Proofs.DeliveryFacts.msg_events (k_tr c) /\
+  Proofs.StreamViolation.perrors (k_tr (fst r)) = true :: Proofs.StreamViolation.perrors (k_tr c).
+Proof.
+  intros cf app Hb Hz d fs lfs c tape ms zs f lf rest Hi Hp Hf Href Hpf Hr Hfin Hform Hop.
+  exact (Proofs.StreamViolationZ.bad_compressed_message_after_prefix cf app Hb Hz d fs lfs c tape ms (None :: zs) f lf rest Hi Hp Hf Href Hpf Hr Hfin Hform Hop I).
+Qed.
+Print Assumptions C06_inflate_failure_is_a_critical_error.
